@@ -198,3 +198,121 @@ Definition c10_restart_obs_ok (o : tr) : bool := persisted_reloaded o && c05_obs
 (** position and committed chain of an observation *)
 Definition pos_chain (o : tr) : tr :=
   TL [nth_tr o 2; TL (map (fun e => TL [nth_tr e 0; nth_tr e 1]) (tls (nth_tr o 3)))].
+
+(** * C11: what the state machine and the gossip strategy receive *)
+(** obs[5] = io: [] kernel op | [1; vview] entrance answered with a view | [2; ..] with a header |
+    [3; oview; oview] state-machine read (view, jump-ahead) | [4; c; v; n; nil] gossip read |
+    [5] / [6] nothing offered to the state machine / gossip | [9] restarted.
+    vview = TL [version; view]; oview = TL [] | TL [vview] *)
+Definition io_of (o : tr) : tr := nth_tr o 5.
+Definition io_tag (o : tr) : N := tn (nth_tr (io_of o) 0).
+Definition vv_ver (vv : tr) : N := tn (nth_tr vv 0).
+Definition vv_view (vv : tr) : tr := nth_tr vv 1.
+Definition vv_h (vv : tr) : N := v_height (vv_view vv).
+Definition vv_r (vv : tr) : N := v_round (vv_view vv).
+
+(** proposals and votes of [a] are contained in [b] *)
+Definition view_grows (a b : tr) : bool :=
+  tr_subset (tls (nth_tr a 6)) (tls (nth_tr b 6)) &&
+  tr_subset (coll_triples (nth_tr a 7)) (coll_triples (nth_tr b 7)) &&
+  tr_subset (coll_triples (nth_tr a 8)) (coll_triples (nth_tr b 8)).
+
+Definition same_hr (a b : tr) : bool := (vv_h a =? vv_h b) && (vv_r a =? vv_r b).
+
+(** state machine stream: within one entrance, strictly newer and growing views of the entered round *)
+Fixpoint c11_sm_bad (i : nat) (last : option tr) (l : list tr) : option nat :=
+  match l with
+  | [] => None
+  | o :: rest =>
+      let tag := io_tag o in
+      if tag =? 9 then c11_sm_bad (S i) None rest
+      else if tag =? 1 then c11_sm_bad (S i) (Some (nth_tr (io_of o) 1)) rest
+      else if tag =? 2 then c11_sm_bad (S i) None rest
+      else if tag =? 3 then
+        match tls (nth_tr (io_of o) 1) with
+        | [vv] =>
+            let ok := match last with
+                      | Some lv => same_hr lv vv && (vv_ver lv <? vv_ver vv) && view_grows (vv_view lv) (vv_view vv)
+                      | None => true
+                      end in
+            if ok then c11_sm_bad (S i) (Some vv) rest else Some i
+        | _ => c11_sm_bad (S i) last rest
+        end
+      else c11_sm_bad (S i) last rest
+  end.
+
+Fixpoint last_for (seen : list tr) (vv : tr) : option tr :=
+  match seen with
+  | [] => None
+  | x :: t => if same_hr x vv then Some x else last_for t vv
+  end.
+Definition remember (seen : list tr) (vv : tr) : list tr :=
+  vv :: filter (fun x => negb (same_hr x vv)) seen.
+
+(** one delivered view against what was delivered before for the same (height, round) *)
+Definition g_one_ok (strict : bool) (seen : list tr) (ov : tr) : bool :=
+  match tls ov with
+  | [vv] => match last_for seen vv with
+            | Some lv => (if strict then vv_ver lv <? vv_ver vv else vv_ver lv <=? vv_ver vv) &&
+                         view_grows (vv_view lv) (vv_view vv)
+            | None => true
+            end
+  | _ => true
+  end.
+Definition g_remember (seen : list tr) (ov : tr) : list tr :=
+  match tls ov with [vv] => remember seen vv | _ => seen end.
+
+(** gossip stream: per (height, round) strictly newer, growing views; the nil-voted round
+    snapshot may repeat the version last delivered for that round *)
+Fixpoint c11_g_bad (i : nat) (seen : list tr) (l : list tr) : option nat :=
+  match l with
+  | [] => None
+  | o :: rest =>
+      let tag := io_tag o in
+      if tag =? 9 then c11_g_bad (S i) [] rest
+      else if tag =? 4 then
+        let io := io_of o in
+        let c := nth_tr io 1 in let v := nth_tr io 2 in let n := nth_tr io 3 in let nl := nth_tr io 4 in
+        if g_one_ok true seen c && g_one_ok true seen v && g_one_ok true seen n && g_one_ok false seen nl
+        then c11_g_bad (S i) (g_remember (g_remember (g_remember (g_remember seen nl) c) v) n) rest
+        else Some i
+      else c11_g_bad (S i) seen rest
+  end.
+
+(** quiescence: when nothing more is offered, the consumer holds the mirror's latest version of
+    the voting (and committing) view it is entitled to *)
+Definition holds_latest (seen : list tr) (view : tr) : bool :=
+  if v_height view =? 0 then true else
+  match last_for seen (TL [TN 0; view]) with
+  | Some lv => vv_ver lv =? tn (nth_tr view 12)
+  | None => false
+  end.
+
+Fixpoint c11_cur_bad (i : nat) (seen : list tr) (sm_last : option tr) (l : list tr) : option nat :=
+  match l with
+  | [] => None
+  | o :: rest =>
+      let tag := io_tag o in
+      let io := io_of o in
+      if tag =? 9 then c11_cur_bad (S i) [] None rest
+      else if tag =? 4 then
+        c11_cur_bad (S i) (g_remember (g_remember (g_remember (g_remember seen (nth_tr io 4)) (nth_tr io 1)) (nth_tr io 2)) (nth_tr io 3)) sm_last rest
+      else if tag =? 6 then
+        if holds_latest seen (nth_tr o 0) && holds_latest seen (nth_tr o 1)
+        then c11_cur_bad (S i) seen sm_last rest else Some i
+      else if tag =? 1 then c11_cur_bad (S i) seen (Some (nth_tr io 1)) rest
+      else if tag =? 2 then c11_cur_bad (S i) seen None rest
+      else if tag =? 3 then
+        c11_cur_bad (S i) seen (match tls (nth_tr io 1) with [vv] => Some vv | _ => sm_last end) rest
+      else if tag =? 5 then
+        let ok := match sm_last with
+                  | Some lv =>
+                      let vot := nth_tr o 0 in let com := nth_tr o 1 in
+                      if (vv_h lv =? v_height vot) && (vv_r lv =? v_round vot) then vv_ver lv =? tn (nth_tr vot 12)
+                      else if (vv_h lv =? v_height com) && (vv_r lv =? v_round com) then vv_ver lv =? tn (nth_tr com 12)
+                      else true
+                  | None => true
+                  end in
+        if ok then c11_cur_bad (S i) seen sm_last rest else Some i
+      else c11_cur_bad (S i) seen sm_last rest
+  end.
